@@ -92,7 +92,8 @@ class Ext(Py27):
         if details is not None and self.read_details:
             # read every detail's bytes inside the outcome call
             return {k: (repr(v.content_type), b"".join(v.iter_bytes())) for k, v in details.items()}
-        return details
+        # (the dict is the reporter's: it may refill it for its next outcome)
+        return dict(details) if isinstance(details, dict) else details
 
     def addError(self, test, err=None, details=None):
         self._ok = False
@@ -235,7 +236,8 @@ class TT(testtools.TestResult):
 
 def _mk(name):
     def method(self, test, *args, **kwargs):
-        self.log.append((name, test, args[0] if args else None, kwargs.get("details")))
+        d = kwargs.get("details")
+        self.log.append((name, test, args[0] if args else None, dict(d) if isinstance(d, dict) else d))
         return getattr(testtools.TestResult, name)(self, test, *args, **kwargs)
 
     method.__name__ = name
